@@ -15,7 +15,12 @@ func readMessage(b *pageBuffer, d *decoder) (attributes int8, baseOffset, timest
 	}
 
 	baseOffset = md.readInt64()
-	md.remain = int(md.readInt32())
+	messageSize := int(md.readInt32())
+	if messageSize < 0 || messageSize > d.remain {
+		err = io.ErrUnexpectedEOF
+		return
+	}
+	md.remain = messageSize
 
 	crc := uint32(md.readInt32())
 	md.setCRC(crc32.IEEETable)
